@@ -202,10 +202,6 @@ def explore(ctx, escalate=False, hint=None):
 
 
 def classify(v):
-    """D25: an option whose value is the empty string is written as `key=`, which is
-    not a header of the grammar; the reader rejects the file"""
-    if 'cannot be parsed back' in v.get('what', '') and has_empty_option(domadapt.dec_tree(v['tree'])):
-        return 'D25'
     return None
 
 
